@@ -60,12 +60,11 @@ const (
 	defaultLazyUpdateTimeout = time.Second * 5
 	expiredMsgTtl            = 5
 
-	minimumChangesToDump   = 1024
-	dumpHeader             = "mosdns_cache_v2"
-	dumpBlockSize          = 128
-	// Upper bound of a block. It must hold the largest single entry: a 64k
-	// dns message that used name compression can unpack to more than 2M
-	// when it is packed again without compression.
+	minimumChangesToDump = 1024
+	dumpHeader           = "mosdns_cache_v2"
+	dumpBlockSize        = 128
+	// Upper bound of a block. Older dumps have messages that were packed
+	// without compression, a block of them can be this big.
 	dumpMaximumBlockLength = 4 << 20
 )
 
@@ -401,12 +400,22 @@ func (c *Cache) writeDump(w io.Writer) (int, error) {
 		if cacheExpirationTime.Before(now) {
 			return nil
 		}
-		msg, err := v.resp.Pack()
+		// Pack with name compression (on a shallow copy, v.resp is shared):
+		// a dumped msg then has the size of a msg from the wire, and readDump
+		// can refuse everything that is bigger than that.
+		m := *v.resp
+		m.Compress = true
+		msg, err := m.Pack()
 		if err != nil {
 			// A response that dns.Msg.Unpack accepted is not always packable
 			// (e.g. an HTTPS record with an empty alpn-id). One such entry
 			// must not cost all the others.
 			c.logger.Warn("failed to pack cached msg, entry skipped", zap.Error(err))
+			return nil
+		}
+		if len(msg) > dns.MaxMsgSize {
+			// readDump would refuse it. (No transport can carry it either.)
+			c.logger.Warn("cached msg is too big to dump, skipped", zap.Int("size", len(msg)))
 			return nil
 		}
 		e := &CachedEntry{
@@ -494,6 +503,13 @@ func (c *Cache) readDump(r io.Reader) (int, error) {
 			cacheExpTime := time.Unix(entry.GetCacheExpirationTime(), 0)
 			msgExpTime := time.Unix(entry.GetMsgExpirationTime(), 0)
 			storedTime := time.Unix(entry.GetMsgStoredTime(), 0)
+			if l := len(entry.GetMsg()); l > dns.MaxMsgSize {
+				// A dump is external input. Unpacking can blow up a msg to
+				// several hundred times its size (compression pointers), do
+				// not unpack more than what a server could have sent.
+				c.logger.Warn("cached msg is too big, entry skipped", zap.Int("size", l))
+				continue
+			}
 			resp := new(dns.Msg)
 			if err := resp.Unpack(entry.GetMsg()); err != nil {
 				// dns.Msg.Pack can emit a message that Unpack refuses (e.g.
